@@ -719,22 +719,17 @@ fn exec_chunk(a: &Args, dir: &Path, chunk: usize, from: u64, to: u64) -> ChunkRe
             .arg(to.to_string());
         let r2 = run_child(c);
         if r2.status.success() {
-            // did not die again: nondeterministic death. Report as harness-level violation class.
-            let class = exit_class(&r.status, &r.stdout);
-            *acc.viol_counts
-                .entry((class.clone(), "not-reproducible".into()))
-                .or_insert(0) += 1;
-            acc.violations.push(Violation {
-                class,
-                key: "not-reproducible".into(),
-                message: format!(
-                    "worker for runs {}..{} died once but not when re-run; stderr: {}",
-                    from, to, r.stderr_tail
-                ),
-                plan: json!({"runs": [from, to]}),
-                run: from,
-            });
-            // use the successful traced run? it has no --out; re-run normally
+            // Did not die again. Every run is a deterministic function of its seed, so a death
+            // that does not replay comes from the environment (an overloaded machine tripping the
+            // wall-clock watchdog, the OOM killer, ...), not from the code under test: it is
+            // counted and reported as a warning, never as a violation.
+            *acc.counters.entry("worker_deaths_not_reproducible".into()).or_insert(0) += 1;
+            eprintln!(
+                "WARNING: worker for runs {}..{} died once ({}) but completed when re-run; treated as environmental",
+                from,
+                to,
+                exit_class(&r.status, &r.stdout)
+            );
             continue;
         }
         let class = exit_class(&r2.status, &r2.stdout);
